@@ -23,13 +23,14 @@ REGISTRY: dict[str, dict] = {
     ),
     "C09": dict(
         modules=["C08", "Tables"],
-        theorems=[T + "C09_partial", T + "C09_counterexample", T + "C09_counterexample_hint", T + "C08_hint_prefix"],
+        theorems=[T + "C09_schedule_independent", T + "C09_any_two_schedules", T + "C09_regression_witness", T + "readHeaderLoop_eq", T + "C08_hint_prefix"],
         table_theorems=[T + "tables_hint_short"],
         rule="IO: valid reference-encoder streams parsed from RawIOBase doubles under read schedules {1…,2…,3,5,"
              "7-1-1,random,whole,1-1-5} x default chunk {1,3,4096}, from BufferedReader(file) and gzip, against BytesIO; "
-             "model with first raw read of 1,2,3,8 bytes. Non-trivial = every stream (all have ≥1 statement row).",
-        assumptions=["CPython io: BufferedReader.read(n) returns n bytes unless EOF; peek(n) does at most one raw read "
-                     "(modelled, validated by the IO suite); real sockets, EINTR and non-blocking None returns are "
+             "buffered non-seekable sources over the same schedules; seekable sources positioned after a preamble at buffer "
+             "boundaries; model under the schedules 1 / 2 / 3 / 8 / 1,1,1 / 2,1 / 1,2,5. Non-trivial = every stream (all have ≥1 statement row).",
+        assumptions=["CPython io: BufferedReader.read(n) returns n bytes unless EOF; raw read(k) returns 1..k bytes unless EOF "
+                     "(modelled as a schedule, validated by the IO suite); real sockets, EINTR and non-blocking None returns are "
                      "runtime behaviour the model cannot exhibit"],
     ),
     "C10": dict(
